@@ -185,6 +185,20 @@ CLASSES = [
     ("ConvToInt", "converts-to-int"), ("ExplicitConvToInt", "explicitly-converts-to-int"), ("TwoArgs", "two-arg-ctor"),
     ("Functor", "functor"), ("NonConstFunctor", "functor-nonconst"), ("AdlSwap", "adl-swap-only"), ("AdlSwapNothrow", "adl-swap-nothrow"),
     ("DeletedSwap", "deleted-swap"), ("EqComparable", "equality-comparable"), ("Lambda", "closure"), ("LambdaCap", "closure-capturing"),
+    # adversarial conversions / boolean-testable proxies (round 2: the concept layer must not collapse to the trait layer)
+    ("ExplDelDst", "conv/expl-deleted-dst"), ("ConvSrc", "conv/conv-fn-src"),
+    ("AmbDst", "conv/ambiguous-target"), ("AmbSrc", "conv/ambiguous-source"), ("TwoWayA", "conv/two-way-a"), ("TwoWayB", "conv/two-way-b"),
+    ("LvalConv", "conv/lvalue-only-conversion-op"), ("RvalConv", "conv/rvalue-only-conversion-op"),
+    ("ConstLvalOnlyConv", "conv/deleted-rvalue-conversion-op"), ("DelFromInt", "conv/deleted-best-ctor"),
+    ("ExplicitCopy", "explicit-copy-ctor"), ("ConvToArrayRef", "conv/to-array-reference"), ("ConvToFnPtr", "conv/to-function-pointer"),
+    ("ThrowingConvToInt", "conv/throwing-conversion-op"), ("AssignFromIntOnly", "assign/from-int-only"),
+    ("AssignReturnsVoid", "assign/returns-void"), ("AssignRvalueOnly", "assign/rvalue-qualified"),
+    ("Verdict", "boolproxy/model"), ("WeirdBool", "boolproxy/deleted-explicit-bool"), ("ExplicitBool", "boolproxy/explicit-only"),
+    ("NotIsVoid", "boolproxy/not-returns-void"), ("NotIsWeird", "boolproxy/not-returns-weird-proxy"),
+    ("NotIsVerdict", "boolproxy/not-returns-model-proxy"), ("LvalueOnlyBool", "boolproxy/lvalue-only"),
+    ("CmpVerdict", "cmp/returns-model-proxy"), ("CmpWeird", "cmp/returns-deleted-explicit-bool-proxy"),
+    ("CmpExplicitBool", "cmp/returns-explicit-bool"), ("CmpVoid", "cmp/returns-void"), ("CmpEqOnlyBool", "cmp/eq-only-rewritten-ne"),
+    ("CmpNonConst", "cmp/nonconst-only"), ("CmpNeDeleted", "cmp/ne-deleted"),
     ("std::reference_wrapper<int>", "std-reference-wrapper"), ("etl::reference_wrapper<int>", "etl-reference-wrapper"),
 ]
 for s, c in CLASSES:
@@ -221,3 +235,61 @@ def cat_of(spell):
     if spell in _by_spell:
         return _by_spell[spell]["cat"]
     return EXTRA_MINI_CATS[spell]
+
+
+# adversarial conversion pairs (From, To): each base pair is expanded to value/reference/const variants in both orders
+ADV_BASE = [
+    ("ConvSrc", "ExplDelDst"), ("AmbSrc", "AmbDst"), ("TwoWayA", "TwoWayB"), ("LvalConv", "int"), ("RvalConv", "int"),
+    ("ConstLvalOnlyConv", "int"), ("int", "DelFromInt"), ("long", "DelFromInt"), ("ExplicitCopy", "ExplicitCopy"),
+    ("WeirdBool", "bool"), ("Verdict", "bool"), ("ExplicitBool", "bool"), ("LvalueOnlyBool", "bool"), ("ThrowingConvToInt", "int"),
+    ("int", "AssignFromIntOnly"), ("int", "AssignReturnsVoid"), ("int", "AssignRvalueOnly"),
+    ("ConvToArrayRef", "int*"), ("ConvToFnPtr", "FnPtr"), ("ExplicitConvToInt", "int"), ("int", "ExplicitFromInt"),
+]
+# decay targets and sources: arrays and functions
+ADV_FIXED = [
+    ("int[3]", "int*"), ("int(&)[3]", "int*"), ("int(&)[3]", "int const*"), ("int[]", "int*"), ("int const[3]", "int*"),
+    ("void()", "void (*)()"), ("void (&)()", "void (*)()"), ("int(int) noexcept", "int (*)(int)"), ("int(int)", "int (*)(int) noexcept"),
+    ("int*", "int[3]"), ("int*", "int(&)[3]"), ("void (*)()", "void()"), ("void (*)()", "void (&)()"), ("ConvToArrayRef", "int(&)[3]"),
+    ("ConvToArrayRef", "int[3]"), ("ConvToFnPtr", "void (&)()"), ("int[3]", "int[3]"), ("void()", "void()"), ("void() const", "void() const"),
+    ("int[2][3]", "int(*)[3]"), ("char const(&)[1]", "char const*"),
+]
+
+
+def _short(spell):
+    if spell == "FnPtr":
+        return "ptr/function/plain"
+    c = cat_of(spell)
+    return c[6:] if c.startswith("class/") else c
+
+
+def _refcat(spell, variant):
+    return {"": "", "&": "&", " const&": "const&", "&&": "&&", " const": "+const"}[variant]
+
+
+def adv_pairs():
+    seen = set()
+    out = []
+
+    def add(a, b, cat):
+        if (a, b) not in seen:
+            seen.add((a, b))
+            out.append((a, b, cat))
+    for f, t in ADV_BASE:
+        cf, ct = _short(f), _short(t)
+        for fv in ("", "&", " const&", "&&"):
+            for tv in ("", " const", "&", " const&"):
+                add(f + fv, t + tv, f"adv:{cf}{_refcat(f, fv)},{ct}{_refcat(t, tv)}")
+                add(t + fv, f + tv, f"adv:{ct}{_refcat(t, fv)},{cf}{_refcat(f, tv)}")
+    for f, t in ADV_FIXED:
+        add(f, t, "adv-decay:" + _declcat(f) + "," + _declcat(t))
+        add(t, f, "adv-decay:" + _declcat(t) + "," + _declcat(f))
+    return out
+
+
+def _declcat(spell):
+    if spell in _by_spell:
+        return _by_spell[spell]["cat"]
+    return {"int(&)[3]": "lref/array/bounded", "int const[3]": "array/bounded/int+const", "int(int) noexcept": "function/plain/noexcept",
+            "int(int)": "function/plain/int-int", "int (*)(int)": "ptr/function/int-int", "int (*)(int) noexcept": "ptr/function/noexcept",
+            "int[2][3]": "array/bounded/multi", "int(*)[3]": "ptr/array/bounded", "char const(&)[1]": "lref/array/bounded-const-char",
+            "char const*": "ptr/object/char-const", "int const*": "ptr/object/int-const", "void() const": "function/abominable/const"}[spell]
